@@ -48,7 +48,10 @@ func (sp ByteSlicePool) Get(capacity int) []byte {
 		return make([]byte, 0, capacity)
 	}
 	buf := bp.([]byte)
+	// Clear the whole backing array, not only the length the slice had when it was put back:
+	// a caller that shrank the slice before Put would otherwise leave its bytes for the next caller's Resize
 	// This will be optimized by the compiler
+	buf = buf[:cap(buf)]
 	for i := range buf {
 		buf[i] = 0
 	}
